@@ -1,5 +1,7 @@
 import OnlVerif.Lemmas.ResStep
 import OnlVerif.Lemmas.ConserveExamples
+import OnlVerif.Lemmas.StrandStep
+import OnlVerif.Lemmas.StrandDemo
 /-!
 # C07 — containers and stores are bounded, conservative, ordered, never strand a request
 
@@ -157,6 +159,243 @@ theorem cancel_rescans (s : KState ℚ σ) (e : EvId) (r : ResId) (hk : (s.ev e)
     cancelReq s e = (triggerPut (dropPutQ s r e) r, none) := by
   unfold cancelReq
   simp only [hu, Bool.false_eq_true, if_false, hk, hq, if_true]
+
+/-! ## ---- begin: "never strand a request" (global theorems, builder b-strand) ----
+
+Vocabulary (`Lemmas/StrandDefs.lean`): `AboutToAdvance s` — the agenda is empty or its next entry is due strictly
+later than `s.now`; `SInv s` — the invariant (for every resource: the oldest pending put/get is unsatisfiable or a
+rescan of that queue is pending at the current instant, plus the structural facts that make this inductive);
+`DReach body fuel s0 s` — reachable by kernel steps of program `body`, each step inside the domain `stepDom` (no
+`succeed()/fail()` on a non-existent event or on a request still waiting in a queue); `NoTrigCalls` — the static
+sufficient condition "the program never calls `succeed()/fail()`". -/
+
+/-- **After a complete `_trigger_put` scan the oldest pending put cannot be satisfied** (Container: more than the free
+room; Store: the store is full). -/
+theorem put_scan_leaves_head_unsatisfiable (s : KState ℚ σ) (r : ResId) (h : Pkg s none) (e : EvId)
+    (he : ((triggerPut s r).res r).putQ.head? = some e) :
+    canPut (prePut (triggerPut s r) r e) r e = false :=
+  (triggerPut_post h r).2.2.2.1 e he
+
+/-- **After a complete `_trigger_get` scan the oldest pending get cannot be satisfied; for a `FilterStore` no pending
+get at all has a matching item.** -/
+theorem get_scan_leaves_head_unsatisfiable (s : KState ℚ σ) (r : ResId) (h : Pkg s none) :
+    (∀ e, ((triggerGet s r).res r).getQ.head? = some e → getItem (triggerGet s r) r e = none) ∧
+    (((triggerGet s r).res r).kind = .fstore → ∀ e ∈ ((triggerGet s r).res r).getQ, getItem (triggerGet s r) r e = none) :=
+  (triggerGet_post h r).2.2.2.1
+
+/-- **Cancelling keeps the invariant**: `cancel()` removes the request and rescans the queue in the same burst, so the
+requests behind a cancelled one are re-evaluated at once (`rem` = callbacks of the current event still to run). -/
+theorem cancel_keeps_invariant (s : KState ℚ σ) (rem : List Cb) (h : J s rem) (e : EvId) : J (cancelReq s e).1 rem :=
+  (h.cancel e).1
+
+/-- **The invariant, in every reachable state**: if the oldest pending put could be satisfied, a rescan of the put
+queue is pending at the current instant; if the oldest pending get (for a `FilterStore`: any pending get) could be
+satisfied, a rescan of the get queue is pending at the current instant. -/
+theorem satisfiable_head_implies_rescan_pending (body : σ → Resume → Burst ℚ σ) (fuel : Nat) (s0 s : KState ℚ σ)
+    (h0 : SInv s0) (hr : DReach body fuel s0 s) (r : ResId) :
+    (∀ e, (s.res r).putQ.head? = some e → canPut (prePut s r e) r e = true →
+      ∃ q ∈ s.agenda, q.time = s.now ∧ ∃ l, (s.ev q.ev).cbs = some l ∧ Cb.trigPut r ∈ l) ∧
+    (∀ e, (s.res r).getQ.head? = some e ∨ ((s.res r).kind = .fstore ∧ e ∈ (s.res r).getQ) → getItem s r e ≠ none →
+      ∃ q ∈ s.agenda, q.time = s.now ∧ ∃ l, (s.ev q.ev).cbs = some l ∧ Cb.trigGet r ∈ l) := by
+  have h := reach_sinv body fuel s0 s h0 hr
+  constructor
+  · intro e he hfree
+    rcases (h.j.main r).1 with hb | hp
+    · have := hb e he
+      unfold putOk at this
+      rw [this] at hfree; cases hfree
+    · rcases hp with hp | hp
+      · cases hp
+      · exact hp
+  · intro e he hsat
+    rcases (h.j.main r).2 with hb | hp
+    · exfalso
+      rcases he with he | ⟨hk, hm⟩
+      · exact hsat (hb.1 e he)
+      · exact hsat (hb.2 hk e hm)
+    · rcases hp with hp | hp
+      · cases hp
+      · exact hp
+
+/-- **Whenever the clock is about to advance, the oldest pending put and the oldest pending get genuinely cannot be
+satisfied in the current state** (for a `FilterStore`: no pending get has a matching item) — for every program, every
+reachable state, all of Container / Store / PriorityStore / FilterStore (and the Resource classes), also after other
+requests have been cancelled. -/
+theorem heads_unsatisfiable_at_advance (body : σ → Resume → Burst ℚ σ) (fuel : Nat) (s0 s : KState ℚ σ)
+    (h0 : SInv s0) (hr : DReach body fuel s0 s) (ha : AboutToAdvance s) (r : ResId) :
+    (∀ e, (s.res r).putQ.head? = some e → canPut (prePut s r e) r e = false) ∧
+    (∀ e, (s.res r).getQ.head? = some e → getItem s r e = none) ∧
+    ((s.res r).kind = .fstore → ∀ e ∈ (s.res r).getQ, getItem s r e = none) :=
+  have h := sinv_advance (reach_sinv body fuel s0 s h0 hr) ha r
+  ⟨h.1, h.2.1, h.2.2⟩
+
+/-- **… in plain words for a Container**: the oldest pending put asks for more than the free room, the oldest pending
+get for more than the level. -/
+theorem container_heads_at_advance (body : σ → Resume → Burst ℚ σ) (fuel : Nat) (s0 s : KState ℚ σ)
+    (h0 : SInv s0) (hr : DReach body fuel s0 s) (ha : AboutToAdvance s) (r : ResId) (hk : (s.res r).kind = .container) :
+    (∀ e, (s.res r).putQ.head? = some e →
+      ∃ c, (s.res r).capacity = some c ∧ (c : Int) - (s.res r).level < (reqOf s e).amount) ∧
+    (∀ e, (s.res r).getQ.head? = some e → (s.res r).level < (reqOf s e).amount) := by
+  obtain ⟨hp, hg, _⟩ := heads_unsatisfiable_at_advance body fuel s0 s h0 hr ha r
+  constructor
+  · intro e he
+    have := hp e he
+    rw [prePut_of_ne s r e (beq_preemptive_of_container hk)] at this
+    unfold canPut at this
+    simp only [hk] at this
+    cases hc : (s.res r).capacity with
+    | none => rw [hc] at this; cases this
+    | some c =>
+      rw [hc] at this
+      simp only [decide_eq_false_iff_not, not_le] at this
+      exact ⟨c, rfl, this⟩
+  · intro e he
+    have := hg e he
+    unfold getItem at this
+    simp only [hk] at this
+    split at this
+    · cases this
+    · rename_i hlt; exact not_le.mp hlt
+
+/-- **… in plain words for the stores**: a pending put at a clock advance means the store is full; a pending get on a
+`Store`/`PriorityStore` means the store is empty; on a `FilterStore` no stored item passes the filter of any pending
+get. -/
+theorem store_heads_at_advance (body : σ → Resume → Burst ℚ σ) (fuel : Nat) (s0 s : KState ℚ σ)
+    (h0 : SInv s0) (hr : DReach body fuel s0 s) (ha : AboutToAdvance s) (r : ResId)
+    (hk : isStoreKind (s.res r).kind = true) :
+    ((s.res r).putQ ≠ [] → ∃ c, (s.res r).capacity = some c ∧ c ≤ (s.res r).items.length) ∧
+    ((s.res r).kind ≠ .fstore → (s.res r).getQ ≠ [] → (s.res r).items = []) ∧
+    ((s.res r).kind = .fstore → ∀ e ∈ (s.res r).getQ, ∀ x ∈ (s.res r).items, filterOk (reqOf s e).filter x = false) := by
+  obtain ⟨hp, hg, hf⟩ := heads_unsatisfiable_at_advance body fuel s0 s h0 hr ha r
+  refine ⟨?_, ?_, ?_⟩
+  · intro hq
+    obtain ⟨e, rest, hqe⟩ := List.exists_cons_of_ne_nil hq
+    have := hp e (by rw [hqe]; rfl)
+    rw [prePut_of_ne s r e (not_preemptive_of_store hk)] at this
+    have hroom : hasRoom (s.res r).capacity (s.res r).items.length = false := by
+      unfold canPut at this
+      unfold isStoreKind at hk
+      cases hkk : (s.res r).kind <;> simp only [hkk] at this hk <;> first | exact this | exact absurd hk (by decide)
+    cases hc : (s.res r).capacity with
+    | none => rw [hc] at hroom; cases hroom
+    | some c =>
+      rw [hc, hasRoom_some] at hroom
+      simp only [decide_eq_false_iff_not, not_lt] at hroom
+      exact ⟨c, rfl, hroom⟩
+  · intro hnf hq
+    obtain ⟨e, rest, hqe⟩ := List.exists_cons_of_ne_nil hq
+    have := hg e (by rw [hqe]; rfl)
+    unfold getItem at this
+    unfold isStoreKind at hk
+    cases hkk : (s.res r).kind <;> simp only [hkk] at this hk hnf <;> first
+      | exact absurd hk (by decide)
+      | exact absurd rfl hnf
+      | (simp only [Option.map_eq_none_iff] at this
+         first
+           | exact List.head?_eq_none_iff.mp this
+           | exact listMin_eq_none _ this)
+  · intro hkf e hm x hx
+    have := hf hkf e hm
+    rw [getItem_fstore s r e hkf] at this
+    simp only [Option.map_eq_none_iff, List.find?_eq_none] at this
+    simpa using this x hx
+
+/-- **For programs that never call `succeed()/fail()` the domain hypothesis is automatic** (plain reachability `KReach`). -/
+theorem heads_unsatisfiable_at_advance_static (body : σ → Resume → Burst ℚ σ) (hb : ∀ st rs, NoTrigCalls (body st rs))
+    (fuel : Nat) (s0 s : KState ℚ σ) (h0 : SInv s0) (hr : KReach body fuel s0 s) (ha : AboutToAdvance s) (r : ResId) :
+    (∀ e, (s.res r).putQ.head? = some e → canPut (prePut s r e) r e = false) ∧
+    (∀ e, (s.res r).getQ.head? = some e → getItem s r e = none) ∧
+    ((s.res r).kind = .fstore → ∀ e ∈ (s.res r).getQ, getItem s r e = none) :=
+  heads_unsatisfiable_at_advance body fuel s0 s h0 (dreach_of_noTrig body hb fuel s0 s hr) ha r
+
+/-! non-vacuity of the block above: `Container(capacity=10, init=7)` with a pending `put(5)` (event 0) at a moment
+when nothing is scheduled: the invariant holds, the clock is about to advance, the head put is genuinely blocked. -/
+example :
+    let s : KState ℚ Unit :=
+      { now := 0,
+        events := #[{ kind := .put 0, cbs := some [.trigGet 0], out := none,
+                      req := some { res := 0, amount := 5, time := 0 } }],
+        resources := #[{ kind := .container, capacity := some 10, level := 7, putQ := [0] }] }
+    SInv s ∧ AboutToAdvance s ∧ (s.res 0).putQ = [0] ∧ canPut (prePut s 0 0) 0 0 = false := by
+  intro s
+  have hev : ∀ x, s.ev x = if x = 0 then
+        { kind := .put 0, cbs := some [.trigGet 0], out := none, req := some { res := 0, amount := 5, time := 0 } }
+      else default := by
+    intro x
+    match x with
+    | 0 => rfl
+    | n + 1 => simp [s, KState.ev]
+  have hres : ∀ r, s.res r = if r = 0 then { kind := .container, capacity := some 10, level := 7, putQ := [0] }
+      else default := by
+    intro r
+    match r with
+    | 0 => rfl
+    | n + 1 => simp [s, KState.res]
+  have hblocked : canPut (prePut s 0 0) 0 0 = false := by
+    rw [prePut_of_ne s 0 0 (by rw [hres]; simp)]
+    unfold canPut reqOf; rw [hres, hev]; decide
+  refine ⟨⟨⟨(by intro q hq; cases hq), (by intro q hq; cases hq), List.Pairwise.nil⟩,
+    ⟨⟨?_, ?_, ?_, ?_, ?_, ?_, ?_, ?_, ?_⟩, ?_, ?_⟩⟩, (by intro q rest hq; cases hq), (by rw [hres]; rfl), hblocked⟩
+  · intro q hq; cases hq
+  · intro p hp; exact absurd rfl hp
+  · intro x l c hl hm
+    rw [hev] at hl
+    split at hl
+    · simp only [Option.some.injEq] at hl; subst hl; simp at hm
+    · cases hl
+  · intro r e hm
+    rw [hres] at hm
+    split at hm
+    · rename_i hr; subst hr
+      simp only [List.mem_singleton] at hm; subst hm
+      rw [hev]; exact ⟨rfl, Or.inl rfl, [.trigGet 0], rfl, List.mem_singleton.mpr rfl⟩
+    · cases hm
+  · intro r e hm
+    rw [hres] at hm
+    split at hm <;> cases hm
+  · intro r; rw [hres]; split
+    · simp
+    · exact List.nodup_nil
+  · intro r; rw [hres]; split <;> exact List.nodup_nil
+  · intro r w hm
+    rw [hres] at hm
+    split at hm <;> cases hm
+  · intro r c hk hc
+    by_cases hr : r = 0
+    · subst hr
+      rw [hres]; exact Nat.zero_le _
+    · rw [hres, if_neg hr]; exact Nat.zero_le _
+  · intro c hc; cases hc
+  · intro r
+    refine ⟨Or.inl ?_, Or.inl ⟨?_, ?_⟩⟩
+    · intro e he
+      rw [hres] at he
+      split at he
+      · rename_i hr; subst hr
+        simp only [List.head?_cons, Option.some.injEq] at he; subst he
+        exact hblocked
+      · cases he
+    · intro e he
+      rw [hres] at he
+      split at he <;> cases he
+    · intro _ e he
+      rw [hres] at he
+      split at he <;> cases he
+
+/-! non-vacuity by a run (`Lemmas/StrandDemo.lean`): `Container(capacity=10, init=7)`; one process issues `put(5)`
+(blocked) and will cancel it at time 1, a second one issues `put(1)` (queued behind).  After two kernel steps both are
+queued and only the timeout at 1 is scheduled: all hypotheses hold and the head `put(5)` is indeed blocked.  Four steps
+later (the cancel and what it triggered) the queue is empty and the level is 8: the `put(1)` was not stranded. -/
+example : SInv Demo.conS0 ∧ DReach Demo.conBody 3 Demo.conS0 Demo.conS2 ∧ AboutToAdvance Demo.conS2 ∧
+    (Demo.conS2.res 0).putQ.length = 2 ∧
+    (∀ e, (Demo.conS2.res 0).putQ.head? = some e → canPut (prePut Demo.conS2 0 e) 0 e = false) ∧
+    DReach Demo.conBody 3 Demo.conS0 Demo.conS6 ∧ AboutToAdvance Demo.conS6 ∧
+    (Demo.conS6.res 0).putQ.length = 0 ∧ (Demo.conS6.res 0).level = 8 :=
+  ⟨Demo.conS0_sinv, Demo.conS2_reach, Demo.conS2_advance, Demo.conS_facts.1,
+    (heads_unsatisfiable_at_advance _ 3 _ _ Demo.conS0_sinv Demo.conS2_reach Demo.conS2_advance 0).1,
+    Demo.conS6_reach, Demo.conS6_advance, Demo.conS_facts.2.2.1, Demo.conS_facts.2.2.2⟩
+
+/-! ## ---- end: "never strand a request" ---- -/
 
 /-! non-vacuity -/
 example : listMin [5, 2, 9, 2] = some 2 := by decide
